@@ -25,6 +25,8 @@ pub struct TB {
     pub vft_size: Option<usize>,
     pub bases: Vec<(String, String)>,
     pub nfields: usize,
+    /// ordinary pointer-sized fields written before the base fields
+    pub lead_fields: usize,
     pub impl_fns: Vec<Function>,
     pub attrs: Vec<Attribute>,
 }
@@ -38,6 +40,7 @@ impl TB {
             vft_size: None,
             bases: vec![],
             nfields: 1,
+            lead_fields: 0,
             impl_fns: vec![],
             attrs: vec![],
         }
@@ -50,6 +53,9 @@ impl TB {
                 st.attributes = Attributes(vec![Attribute::size(s)]);
             }
             statements.push(st);
+        }
+        for k in 0..self.lead_fields {
+            statements.push(TypeStatement::field((Visibility::Public, format!("lead{k}").as_str()), word()));
         }
         for (f, t) in &self.bases {
             statements.push(TypeStatement::field((Visibility::Public, f.as_str()), Type::ident(t)).with_attributes([Attribute::base()]));
@@ -253,7 +259,7 @@ pub fn c06_shapes(first_id: usize) -> Vec<Case> {
         for depth in 1..=4usize {
             for nbases in 1..=3usize {
                 for base_mask in 0..(1u32 << nbases) {
-                    for derived_block in [false, true] {
+                    for (derived_block, lead) in [(false, 0usize), (true, 0), (false, 1), (true, 2)] {
                         let id = format!("k{}_", first_id + out.len());
                         let mut m = Module::new();
                         // leaf bases
@@ -272,6 +278,8 @@ pub fn c06_shapes(first_id: usize) -> Vec<Case> {
                             let mut d = TB::new(&format!("D{k}"));
                             if k == 1 {
                                 d.bases = (0..nbases).map(|bi| (format!("base{bi}"), format!("B{bi}"))).collect();
+                                // an ordinary field may precede the first base: it is still the first base
+                                d.lead_fields = lead;
                             } else {
                                 d.bases = vec![("base".into(), format!("D{}", k - 1))];
                             }
@@ -321,6 +329,7 @@ pub fn c06_mutants(ptrw: usize) -> Vec<(&'static str, Vec<(ItemPath, Module)>, u
         let mut d = TB::new("D");
         d.bases = vec![("base".into(), prev)];
         d.vft = Some(derived);
+        d.lead_fields = depth % 2;
         d.add_to(&mut m);
         vec![(ItemPath::from("kmut_m"), m)]
     };
